@@ -1,6 +1,7 @@
 package main
 
 import (
+	"html"
 	"fmt"
 	"math"
 	"reflect"
@@ -66,6 +67,13 @@ func c11NoSuchFunc(fn string, recv Val) bool {
 	return true
 }
 
+// c11EscapeLiteral: what the interpreter turns the text of a string literal into when it evaluates it.
+func c11EscapeLiteral(s string) string {
+	e := html.EscapeString(s)
+	e = strings.ReplaceAll(e, "&#34;", `"`)
+	return strings.ReplaceAll(e, "&#39;", "'")
+}
+
 func litArgs(args []Val) string {
 	parts := make([]string, len(args))
 	for i, a := range args {
@@ -119,6 +127,25 @@ func c11Check(cs c11Case) (ok bool, sig, expected, observed string) {
 		}
 		if o.Kind == KPanic || o.Kind == KHang {
 			return false, o.Kind + "@" + o.Site, expected, o.String()
+		}
+		if !cs.AsVar && cs.Recv.K == VStr && strings.ContainsAny(cs.Recv.S, "&<>") && !cs.Wrap {
+			// a literal receiver with HTML-special characters: the function must see the text as written. When the
+			// result is exactly what the function gives for the HTML-escaped text, the failure is the known one
+			// (literals are escaped when they are evaluated, not when they are printed), under one signature.
+			esc := cs
+			esc.AsVar = true
+			esc.Recv = vStr(c11EscapeLiteral(cs.Recv.S))
+			okRaw, sigRaw, _, _ := c11Check(c11Case{Mode: "call", Recv: cs.Recv, Fn: cs.Fn, Args: cs.Args, AsVar: true})
+			srcEsc := "{{ r = x." + cs.Fn + "(" + argSrc + ") }}[{{ r }}]"
+			if wantArr {
+				srcEsc += "|{{ r.len() }}"
+			}
+			oEsc := runString(srcEsc, dataMap(map[string]Val{"x": esc.Recv}))
+			oRaw := runString(srcEsc, dataMap(map[string]Val{"x": cs.Recv}))
+			_ = sigRaw
+			if okRaw && oEsc.String() == o.String() && oRaw.String() != o.String() && !ref.perm && !ref.member {
+				return false, "literal-receiver-escaped-before-the-call", "the function sees the literal as written (as it does for the same text in a variable: " + oRaw.String() + ") for " + strconvQuote(src), o.String()
+			}
 		}
 		if o.Kind == KOut && inputsValid && !utf8.ValidString(o.Out) {
 			return bad("invalid-utf8")
@@ -555,7 +582,7 @@ func c11Run(c *Ctx) {
 	if !c.Thorough() {
 		strs = append(strs, vStr("héllo"), vStr("éa日"), vStr("aBé"), vStr("日本語"), vStr(" a "), vStr("a,B"))
 	}
-	strs = append(strs, vStr("12"), vStr("-3"), vStr("1.5"), vStr("007"), vStr("&lt;b&gt;"), vStr("Hello World"))
+	strs = append(strs, vStr("12"), vStr("-3"), vStr("1.5"), vStr("007"), vStr("&lt;b&gt;"), vStr("Hello World"), vStr("<b>"), vStr("a&b"), vStr("<"))
 	arrs := c11Arrays(arrLen)
 	if !c.Thorough() {
 		arrs = append(arrs, vArr(vInt(1), vInt(2), vInt(3)), vArr(vStr("a"), vStr("b"), vStr("c"), vStr("d")), vArr(vArr(vInt(1)), vArr(vInt(1)), vInt(1)))
@@ -588,8 +615,8 @@ func c11Run(c *Ctx) {
 						if !asVar && r.K == VInt && r.I == math.MinInt64 {
 							continue // no literal for the minimum
 						}
-						if !asVar && r.K == VStr && strings.ContainsAny(r.S, "&<>\"'") {
-							continue // a literal with HTML-special characters is escaped before the call (C10)
+						if !asVar && r.K == VStr && strings.ContainsAny(r.S, "\"'") {
+							continue // quotes inside a literal: the two quote styles are C10's matter
 						}
 						if !do(c11Case{Mode: "call", Recv: r, Fn: fn, Args: args, AsVar: asVar}, ri) {
 							return
